@@ -326,12 +326,15 @@ def _gen_space(ctx, rng, big):
     shape = rng.choice(["direct", "guarded", "mixed", "deep", "updates"])
     nops = rng.randint(1, (30 if d < 3 else 12) if big else (14 if d < 3 else 6))
     depths, leaves, ops = [1], [0], []
+    # objectives in tiny units / a vague prior: region bounds far outside ±1e12 (the default region's bounds) — still
+    # exact dyadics; "children start from the parent's region" has no magnitude clause
+    huge = 2.0 ** rng.choice([38, 40, 44]) if (shape in ("updates", "mixed") and rng.random() < 0.25) else 1.0
     for _ in range(nops):
         r = rng.random()
         if shape in ("updates", "mixed") and r < 0.3:
             i = rng.randrange(len(depths))
-            mean = [core.dyadic(rng, -8, 8, 2) for _ in range(m)]
-            sd = [core.dyadic(rng, 0, 6, 1) for _ in range(m)]
+            mean = [core.dyadic(rng, -8, 8, 2) * huge for _ in range(m)]
+            sd = [core.dyadic(rng, 0, 6, 1) * huge for _ in range(m)]
             ops.append(["U", i, mean, sd])
             continue
         if shape == "deep":
@@ -513,6 +516,8 @@ def _gen_gate(ctx, rng, variant=None):
 def gen(ctx):
     rng = ctx.rng
     big = ctx.tier == "thorough"
+    if ctx.worker == 0:
+        yield from _huge_fixed()
     # structured first: exhaustive short refinement orders in 1-D / 2-D (thorough), then random
     if big:
         k = 0
@@ -573,6 +578,18 @@ def gen(ctx):
             yield _vh.gen_vh(ctx, rng, j)
         if j < n_beta:
             yield _vh.gen_beta(ctx, rng, j)
+
+
+def _huge_fixed():
+    """fixed, every run: a parent whose region reaches beyond ±1e12 is refined (twice); the children must start
+    from exactly that region"""
+    H = 2.0 ** 40
+    out = []
+    for d, m in ((1, 2), (2, 2), (2, 3)):
+        ops = [["U", 0, [1.5 * H, -2.0 * H, 0.25][:m], [0.5 * H, 4.0 * H, 1.0][:m]], ["R", 0],
+               ["U", 1, [-3.0 * H, 0.5, 2.0 * H][:m], [8.0 * H, 0.25, 0.5 * H][:m]], ["R", 1]]
+        out.append({"kind": "space", "d": d, "m": m, "max_depth": 5, "shape": "huge-fixed", "ops": ops})
+    return out
 
 
 # ------------------------------------------------------------------------------------------ run_case
